@@ -369,6 +369,8 @@ gen_c20 (gen_t *g, rng_t *r, scenario_t *sc, int tier)
 	{
 	    int owner = gen_find (g, 0, 1), map = rng_chance (r, 1, 5) ? -1 : gen_find (g, 1, 1);
 	    if (rng_chance (r, 1, 10)) map = owner;          /* self */
+	    /* re-attach the map the owner already has (new origin), also after the user let go of it */
+	    if (owner >= 0 && g->s[owner].has_alpha >= 0 && rng_chance (r, 1, 3)) map = g->s[owner].has_alpha;
 	    gen_alpha_map (g, owner, map);
 	}
 	else if (roll < 76) gen_clip (g, any, 1);
